@@ -161,6 +161,26 @@ def run(rep):
     def scalar_false(conds):
         return any((not t) and (pq.same(c, pq.parse(SCALAR, venv)) or pq.same(c, pq.parse(SCALAR2, venv)) or _isinstance_set(c, Vx) == {"str", "float", "int"}) for c, t in conds)
     okw = okw and all(scalar_true(e.conds) for e in wrapped) and all(scalar_false(e.conds) for e in plain)
+    # positive refutation: an iterating conversion of the option value on a path where it can still be a string (list("gr4j") is four options)
+    split = []
+    try:
+        pe2 = pq.PEval()
+        pe2.inline = {n.name: n for n in mod.tree.body if isinstance(n, ast.FunctionDef)}
+        for q_ in (pe2.run(cp) if pe2.inline else []):
+            for e in q_.effects:
+                if e.kind == 'store' and e.target == "self.options" and not scalar_false(e.conds) and not scalar_true(e.conds):
+                    for sub in pq.find(e.val, lambda x: isinstance(x, tuple) and len(x) >= 3 and x[0] == 'call' and x[1] in ("py.list", "list", "py.tuple", "tuple", "py.sorted", "sorted", "py.set", "set", "py.iter", "iter")
+                                       and any(pq.same(a_, Vx) for a_ in x[2])):
+                        split.append(show(sub)[:70])
+        for e in stores:
+            if not scalar_false(e.conds) and not scalar_true(e.conds):
+                for sub in pq.find(e.val, lambda x: isinstance(x, tuple) and len(x) >= 3 and x[0] == 'call' and x[1] in ("py.list", "list", "py.tuple", "tuple", "py.sorted", "sorted", "py.set", "set")
+                                   and any(pq.same(a_, Vx) for a_ in x[2])):
+                    split.append(show(sub)[:70])
+    except Exception:
+        split = []
+    rep.check(not split, "R19.b", rel, "OptionManager.from_cartesian_product", "an option value is never iterated (list / tuple / sorted of it) on a path where it can be a bare string",
+              f"{sorted(set(split))[:1]} is stored without an isinstance(str) test on the path: 'gr4j' becomes the four options g, r, 4, j", line=cp.lineno, firm=True)
     rep.check(okw, "R19.b", rel, "OptionManager.from_cartesian_product", "bare scalars / strings are wrapped into one-element lists; option names stored as strings",
               "; ".join(repr(e)[:100] for e in stores)[:300], line=cp.lineno)
     apps = [e for e in p_.effects if e.kind == 'call' and e.target == "self.tasks.append" and e.loops]
